@@ -5,11 +5,12 @@
    true iff every planted character is read inside a comment / docstring without ending it and the
    lexer is back in code mode at the end.  [<l>_tmpl indent docs] is the comment fragment of language
    l for the doc strings [docs]. *)
-From Coq Require Import List String.
-From TS Require Import Model.Str Model.Outcome Model.Unicode Model.Syntax Model.Attrs Model.Types Model.Parse.
+From Coq Require Import List String Permutation.
+From TS Require Import Model.Str Model.Outcome Model.Unicode Model.Syntax Model.Attrs Model.Types Model.Parse Model.Rename.
+From TS Require Import Model.TopsortAlgo Model.Topsort Model.Lang.Common.
 From TS Require Import Model.Lang.TypeScript Model.Lang.Kotlin Model.Lang.Swift Model.Lang.Scala Model.Lang.Go Model.Lang.Python.
-From TS Require Import Spec.Lexers Spec.C15Spec.
-From TS Require Proofs.C15.
+From TS Require Import Spec.Lexers Spec.C15Spec Spec.C15Render.
+From TS Require Proofs.C15 Proofs.C15_Render Proofs.C15_Kotlin Proofs.C15_Go Proofs.C15_Swift Proofs.C15_Python Proofs.C15_TypeScript.
 Import ListNotations.
 
 (* ---- front end: parse_comment_attrs delivers one string per doc attribute (which is what `/// s`,
@@ -23,6 +24,18 @@ Theorem C15_front_raw_doc_strings : forall uc attrs,
                      end) attrs.
 Proof. exact Proofs.C15.parse_comment_attrs_spec. Qed.
 Print Assumptions C15_front_raw_doc_strings.
+
+(* the same in the vocabulary of the specification: a doc attribute with value v is carried as [c15_carried uc v]
+   (= trim v); safe_<l>, known_C15 and good_C15 are decided on these carried strings *)
+Theorem C15_front_carried : forall uc attrs,
+  parse_comment_attrs uc attrs =
+  map (c15_carried uc)
+      (flat_map (fun a => match a_meta a with
+                          | MNV p (VStr s) => if path_is_ident p (lit "doc") then [s] else []
+                          | _ => []
+                          end) attrs).
+Proof. exact Proofs.C15.parse_comment_attrs_carried. Qed.
+Print Assumptions C15_front_carried.
 
 (* ---- the fragments of Spec/C15Spec.v are what the model's six write_comments print, for any doc
    list and any indentation: same text, and the doc pieces are exactly the doc strings, in order
@@ -160,3 +173,161 @@ Print Assumptions C15_ts_refuted.
 Theorem C15_py_refuted : Proofs.C15.c15_refutes C15py (lit "alpha """""" beta").
 Proof. exact Proofs.C15.C15_py_refuted. Qed.
 Print Assumptions C15_py_refuted.
+
+(* ======================= renderer level, the other back ends (Spec/C15Render.v) =======================
+   Kotlin, Swift, Go and Python do not inline struct variants: write_types_for_anonymous_structs prints
+   one helper struct per struct variant IN FRONT of the enum, under a comment typeshare writes itself,
+   and the doc strings of the variant's fields move there.  [c15_item_docs_helpers_first it] is that print
+   order, [c15_item_generated it] the generated comments.  First: the print order is a rearrangement of
+   the IR's doc strings of the item plus the generated comments - nothing lost, nothing else added. *)
+Theorem C15_helpers_first_perm : forall it,
+  Permutation (c15_item_docs_helpers_first it) (c15_item_generated it ++ c15_item_docs it).
+Proof. exact Proofs.C15_Render.c15_helpers_first_perm. Qed.
+Print Assumptions C15_helpers_first_perm.
+
+(* ---- Kotlin, one item through the model's write_struct / write_enum (with the helper data classes) /
+   write_type_alias (typealias and value class), any configuration: the printed text is code parts and
+   `/// ` fragments whose doc strings are exactly [c15_item_docs_helpers_first it], in this order - every doc
+   string of the item reproduced - and the text is contained iff all of them are safe_kt, provided the
+   code parts keep the lexer in code mode (partial for that hypothesis, as C15_file_partial) ---- *)
+Theorem C15_kt_render_partial : forall (cfg : kt_config) it text,
+  kt_write_item cfg it = Ok text ->
+  exists parts,
+    text = text_of (c15_file_pieces C15kt parts) /\
+    docs_of (c15_file_pieces C15kt parts) = c15_item_docs_helpers_first it /\
+    (Forall (c15_code_neutral C15kt) parts ->
+     c15_contained C15kt LCode (mark (c15_file_pieces C15kt parts)) =
+     forallb safe_kt (c15_item_docs_helpers_first it)).
+Proof. exact Proofs.C15_Kotlin.C15_kt_render_partial. Qed.
+Print Assumptions C15_kt_render_partial.
+
+(* ---- Go, one item through the model's write_struct / write_enum (helper structs, string enum, tagged
+   enum with its key type, constants, UnmarshalJSON / MarshalJSON, accessors, constructors) /
+   write_type_alias / write_const, any configuration, any set of known struct names and any printer
+   state (the imports collected so far): code parts and `// ` fragments whose doc strings are exactly
+   [c15_item_docs_helpers_first it], in this order; contained iff all are safe_go, given neutral code
+   parts (partial as above) ---- *)
+Theorem C15_go_render_partial : forall (uc : unicode) (cfg : go_config) custom_structs it st text st',
+  go_write_item uc cfg custom_structs it st = Ok (text, st') ->
+  exists parts,
+    text = text_of (c15_file_pieces C15go parts) /\
+    docs_of (c15_file_pieces C15go parts) = c15_item_docs_helpers_first it /\
+    (Forall (c15_code_neutral C15go) parts ->
+     c15_contained C15go LCode (mark (c15_file_pieces C15go parts)) =
+     forallb safe_go (c15_item_docs_helpers_first it)).
+Proof. exact Proofs.C15_Go.C15_go_render_partial. Qed.
+Print Assumptions C15_go_render_partial.
+
+(* ---- Swift, one item through the model's write_struct / write_enum (helper structs, cases, CodingKeys,
+   init(from:), encode(to:)) / write_type_alias, any configuration and printer state: code parts and
+   `/// ` fragments whose doc strings are exactly the strings of [c15_item_docs_helpers_first it], each
+   WITHOUT ITS TRAILING WHITE SPACE (swift.rs write_comment prints comment.trim_end(); the front end
+   delivers trimmed strings, so this is the identity on what parse_comment_attrs produces), in this
+   order; contained iff all are safe_sw, given neutral code parts (partial as above) ---- *)
+Theorem C15_sw_render_partial : forall (uc : unicode) (cfg : sw_config) it st text st',
+  sw_write_item uc cfg it st = Ok (text, st') ->
+  exists parts,
+    text = text_of (c15_file_pieces C15sw parts) /\
+    docs_of (c15_file_pieces C15sw parts) = c15_sw_item_docs uc it /\
+    (Forall (c15_code_neutral C15sw) parts ->
+     c15_contained C15sw LCode (mark (c15_file_pieces C15sw parts)) =
+     forallb safe_sw (c15_sw_item_docs uc it)).
+Proof. exact Proofs.C15_Swift.C15_sw_render_partial. Qed.
+Print Assumptions C15_sw_render_partial.
+
+(* ---- Python, one item through the model's write_struct / write_enum (helper classes, (str, Enum) class,
+   Types class + variant classes + Union alias) / write_type_alias / write_const, any configuration and
+   printer state.  [c15_py_item_sites it] lists the documented positions in Python's print order with the
+   form each is printed in: (true, d) a docstring (it FOLLOWS the line it documents), (false, d) a `# `
+   line (only the doc of an algebraic enum, printed after the variant classes).  The text is code
+   parts and comment fragments carrying exactly these doc strings in this order; it is contained iff
+   every docstring is safe_py_docstring and every `# ` string safe_py_hash, given neutral code parts
+   (partial as above).  The second theorem: this order is a rearrangement of the IR's doc strings of
+   the item plus the generated helper comments. ---- *)
+Theorem C15_py_render_partial : forall (uc : unicode) (cfg : py_config) it st text st',
+  py_write_item uc cfg it st = Ok (text, st') ->
+  exists parts,
+    text = text_of (c15_file_pieces C15py parts) /\
+    docs_of (c15_file_pieces C15py parts) = map snd (c15_py_item_sites it) /\
+    (Forall (c15_code_neutral C15py) parts ->
+     c15_contained C15py LCode (mark (c15_file_pieces C15py parts)) =
+     forallb (c15_site_ok C15py) (c15_py_item_sites it)).
+Proof. exact Proofs.C15_Python.C15_py_render_partial. Qed.
+Print Assumptions C15_py_render_partial.
+Theorem C15_py_sites_perm : forall it,
+  Permutation (map snd (c15_py_item_sites it)) (c15_item_generated it ++ c15_item_docs it).
+Proof. exact Proofs.C15_Python.c15_py_sites_perm. Qed.
+Print Assumptions C15_py_sites_perm.
+
+(* ======================= whole items WITHOUT the neutrality hypothesis =======================
+   [c15_item_plain l lg const_name it] (Spec/C15Render.v, decidable): the identifiers of the item (names,
+   generic parameters, keys, tag / content keys, the identifiers of its types, verbatim type overrides,
+   the printed name of a constant) contain no character that opens a comment or a literal of language l,
+   and what is printed between double quotes through {:?} contains no control character and no
+   U+2028/9.  [c15_mappings_plain]: the same for the target texts of type_mappings.  Under these the code
+   the printer writes around the comment fragments keeps the reference lexer in code mode (every
+   literal fragment of the templates, generics, printed types by induction over the type, {:?}-quoted
+   keys and wire names, decimal constants), so: *)
+
+(* ---- TypeScript, one item, any printer state: the printed text is contained iff all doc strings of the
+   item are safe_ts, and they are all reproduced, in source order ---- *)
+Theorem C15_ts_item : forall (uc : unicode) (cfg : ts_config),
+  c15_mappings_plain C15ts (ts_type_mappings cfg) = true ->
+  forall it st text st',
+  c15_item_plain C15ts TypeScript (fun n => str_to_uppercase uc (to_snake_case uc n)) it = true ->
+  ts_write_item uc cfg it st = Ok (text, st') ->
+  exists parts,
+    text = text_of (c15_file_pieces C15ts parts) /\
+    docs_of (c15_file_pieces C15ts parts) = c15_item_docs it /\
+    c15_contained C15ts LCode (mark (c15_file_pieces C15ts parts)) = forallb safe_ts (c15_item_docs it).
+Proof. exact Proofs.C15_TypeScript.C15_ts_item. Qed.
+Print Assumptions C15_ts_item.
+
+(* ---- Kotlin, one item, without the neutrality hypothesis.  [c15_item_strict l lg it] (Spec/C15Render.v,
+   decidable): every identifier of the item (names, field keys, variant names, the identifiers of its
+   types) is a NON-EMPTY string of characters that open no comment and no literal, are no control
+   characters and no backslash; generic parameters, the content key and verbatim type overrides are
+   plain.  (Non-empty and backslash-free because kotlin.rs prints the wire name of a sealed-class
+   variant between double quotes verbatim, and two adjacent quotes may open a raw string.)  With a plain
+   prefix and plain type_mappings targets, the text kt_write_item prints - helper data classes with their
+   @SerialName lines and toString() literal, data / value / enum / sealed classes, typealias - is
+   contained iff all doc strings of the item (print order) are safe_kt ---- *)
+Theorem C15_kt_item : forall (cfg : kt_config),
+  c15_plain C15kt (kt_prefix cfg) = true ->
+  c15_mappings_plain C15kt (kt_type_mappings cfg) = true ->
+  forall it text,
+  c15_item_strict C15kt Kotlin it = true ->
+  kt_write_item cfg it = Ok text ->
+  exists parts,
+    text = text_of (c15_file_pieces C15kt parts) /\
+    docs_of (c15_file_pieces C15kt parts) = c15_item_docs_helpers_first it /\
+    c15_contained C15kt LCode (mark (c15_file_pieces C15kt parts)) =
+    forallb safe_kt (c15_item_docs_helpers_first it).
+Proof. exact Proofs.C15_Kotlin.C15_kt_item. Qed.
+Print Assumptions C15_kt_item.
+
+(* ---- TypeScript, WHOLE FILES (ts_generate: version header, the items in topological order with the printer
+   state threaded through them, the reviver / replacer trailer), no neutrality hypothesis.  For every parsed
+   program whose items are plain (as above), whose field keys contain no double quote, backslash or line
+   terminator (c15_ts_item_keys_ok: the trailer prints the keys of Date-typed fields raw between double quotes),
+   with plain type_mappings targets and a version string without `*` (it is printed inside a block comment):
+   the generated file is code parts and comment fragments whose doc strings are the doc strings of the items in
+   output order (a permutation of the program's items), followed - when the trailer is printed - by the four
+   comment lines typeshare writes itself; and the file is contained iff every doc string of the program is
+   safe_ts.  (The unrestricted statement is false: C15_ts_refuted.) ---- *)
+Theorem C15_ts_file : forall (uc : unicode) (cfg : ts_config),
+  c15_mappings_plain C15ts (ts_type_mappings cfg) = true ->
+  forall pd text,
+  c15_no_star (ts_version cfg) = true ->
+  forallb (c15_item_plain C15ts TypeScript (fun n => str_to_uppercase uc (to_snake_case uc n))) (items_of pd) = true ->
+  forallb c15_ts_item_keys_ok (items_of pd) = true ->
+  ts_generate uc cfg pd = Ok text ->
+  exists items trailer parts,
+    topsort (items_of pd) = Ok items /\ Permutation items (items_of pd) /\
+    (trailer = [] \/ trailer = c15_ts_trailer_docs) /\
+    text = text_of (c15_file_pieces C15ts parts) /\
+    docs_of (c15_file_pieces C15ts parts) = flat_map c15_item_docs items ++ trailer /\
+    c15_contained C15ts LCode (mark (c15_file_pieces C15ts parts)) =
+    forallb safe_ts (flat_map c15_item_docs (items_of pd)).
+Proof. exact Proofs.C15_TypeScript.C15_ts_file. Qed.
+Print Assumptions C15_ts_file.
